@@ -269,6 +269,29 @@ func (w *World) RandomOp(o HistOpts) {
 				w.AddFee(w.anyActor(), ids[w.pick(len(ids))], w.amount(), w.pick(4) == 0)
 			}
 		}},
+		{2 + o.DisputeBias, func() {
+			// a dispute still waiting for its fee gets a payment FROM BOND, by a reporter or by a plain selector
+			var pre []uint64
+			_ = w.App.DisputeKeeper.Disputes.Walk(w.Ctx, nil, func(id uint64, d disputetypes.Dispute) (bool, error) {
+				if d.DisputeStatus == disputetypes.Prevote && !w.Time.After(d.DisputeEndTime) {
+					pre = append(pre, id)
+				}
+				return false, nil
+			})
+			if len(pre) == 0 {
+				return
+			}
+			var sels []*Actor
+			for _, a := range w.Actors {
+				if _, err := w.App.ReporterKeeper.Selectors.Get(w.Ctx, a.Addr.Bytes()); err == nil {
+					sels = append(sels, a)
+				}
+			}
+			if len(sels) == 0 {
+				return
+			}
+			w.AddFee(sels[w.pick(len(sels))], pre[w.pick(len(pre))], int64(10_000+w.pick(200_000)), true)
+		}},
 		{6 + 2*o.DisputeBias, func() {
 			if ids := w.disputeIds(); len(ids) > 0 {
 				w.Vote(w.anyActor(), ids[w.pick(len(ids))], disputetypes.VoteEnum(w.pick(3)))
@@ -691,6 +714,14 @@ func (w *World) DisputeStory(o HistOpts) {
 			w.block(o, 2*sec, func() { w.WithdrawFeeRefund(payers[0], payers[0], id) }, func() { w.WithdrawFeeRefund(payers[0], payers[0], id) })
 			return
 		default:
+			// a plain selector (not a reporter) pays part of the fee from its bond: only its own stake may go down
+			for _, a := range w.Actors {
+				if sl, err := w.App.ReporterKeeper.Selectors.Get(w.Ctx, a.Addr.Bytes()); err == nil && string(sl.Reporter) != string(a.Addr.Bytes()) && string(sl.Reporter) != string(r.Addr.Bytes()) {
+					a := a
+					w.block(o, 3*sec, func() { w.AddFee(a, id, int64(10_000+w.pick(50_000)), true) })
+					break
+				}
+			}
 			// funding that stops just short of the full fee (between 95% and 100%): nothing may happen yet
 			if w.pick(3) == 0 {
 				short := full.Int64() - first - full.Int64()/int64(25+w.pick(60))
